@@ -279,11 +279,18 @@ def alphabet(thorough):
         trees += [((-1,), ("free",)), ((-1,), ("hinge2",)), ((-1, 0), ("ball", "slide")), ((-1, 0), ("hinge", "ball")), ((-1, 0, 1), ("hinge", "hinge", "slide"))]
     # option index per tree: RK4 (four forward passes to differentiate) only on the smallest model of the quick tier
     oidx = {0: 1, 1: 0, 2: 2, 3: 3}
+    # mass-distribution dimension: None = every body has mass; "leaf" = a jointless marker body carrying only a site hangs on
+    # the last body (body mass and SUBTREE mass exactly 0: the centre-of-mass normalisation divides by a guarded zero there);
+    # "frame" = massless frame body with a massive jointless child (body mass 0, subtree mass > 0).  The marker site is
+    # observed by two sensors, so it is part of the differentiated outputs.  Quick: the value rotates over the trees (every
+    # value occurs, in reverse mode); thorough: additionally the full product on the first two trees.
+    MARK = ["leaf", None, "frame"]
     for ti, (par, js) in enumerate(trees):
         op, desc = o(oidx.get(ti, ti))
-        it = G.tree_model("smooth[%s]" % ",".join(js), par, js, op, tendon=True, gravcomp=(ti % 2 == 0), actuators=1,
-                          sensors=1, spatial=(ti == 0) and "plain")
-        add(it, desc, ["rev"] + (["fwd"] if thorough else []), ns)
+        for mk in ([MARK[ti % 3]] + ([m_ for m_ in MARK if m_ != MARK[ti % 3]] if thorough and ti < 2 else [])):
+            it = G.tree_model("smooth[%s%s]" % (",".join(js), (";massless-" + mk) if mk else ""), par, js, op, tendon=True,
+                              gravcomp=(ti % 2 == 0), actuators=1, sensors=1, spatial=(ti == 0) and "plain", marker=mk)
+            add(it, desc, ["rev"] + (["fwd"] if thorough else []), ns)
     # steadily active constraints / contacts.  MJX's solver iterates with lax.while_loop, for which JAX defines no reverse
     # rule, so reverse mode raises (counted outcome "reverse_mode_raises", see check_model); with opt.iterations == 1 MJX
     # unrolls one iteration, but the result then depends on the line search's discrete decisions and is not a smooth
